@@ -81,6 +81,13 @@ def check_xnp():
     same('sort', np.sort(A).tolist(), xnp.sort(X).data)
     same('bincount', np.bincount(A, minlength=9).tolist(), xnp.bincount(X, minlength=9).data)
     same('array_equal', (bool(np.array_equal(A, A)), bool(np.array_equal(A, A + 1))), (xnp.array_equal(X, X) is True or bool(xnp.array_equal(X, X)), bool(xnp.array_equal(X, X + 1))))
+    S = np.sort(A)
+    same('searchsorted', (np.searchsorted(S, np.array([0, 3, 4, 9]), side='right').tolist(), np.searchsorted(S, np.array([0, 3, 4, 9])).tolist()),
+         (xnp.searchsorted(xnp.sort(X), xnp.Arr([0, 3, 4, 9]), side='right').data, xnp.searchsorted(xnp.sort(X), xnp.Arr([0, 3, 4, 9])).data))
+    big = [0, 99999, 100000, 2 ** 20 - 2]
+    for d in (0, 1, 2, 11):
+        same(f'allclose +{d}', bool(np.allclose(np.array(big), np.array(big) + d)), bool(xnp.allclose(xnp.Arr(big), xnp.Arr([v + d for v in big]))))
+        same(f'allclose tail +{d}', bool(np.allclose(np.array(big[2:]), np.array(big[2:]) + d)), bool(xnp.allclose(xnp.Arr(big[2:]), xnp.Arr([v + d for v in big[2:]]))))
     z = xnp.zeros(10 ** 6)
     zr = np.zeros(10 ** 6, dtype=np.int64)
     for i in (5, 999999, 5, 17):
@@ -89,4 +96,4 @@ def check_xnp():
     same('sparse zeros', (np.nonzero(zr)[0].tolist(), int(zr.max())), (xnp.nonzero(z)[0].data, xnp.max(z)))
     if probs:
         raise HarnessError('xnp disagrees with numpy: ' + '; '.join(probs[:4]))
-    return 12
+    return 21
